@@ -326,4 +326,9 @@ def hstart (s : HState) (rep : Rep) : Option HRes :=
     | none => none
   | none => some (s, [], none)
 
+/-- `Peer::handle_request`: the manager lets the task load and send a piece only to a peer we do not choke, for an
+    index in range, of a piece we own. (`amChoked` = our choking of the peer.) -/
+def managerAnswersLoad (amChoked : Bool) (piecesNum idx : Nat) (isHave : Bool) : Bool :=
+  !amChoked && decide (idx < piecesNum) && isHave
+
 end Rdest.Swarm
